@@ -440,6 +440,8 @@ fn used_imports<'a, 'b: 'a>(
         // Find the first type that does not belong to the current crate.
         if let Some((crate_name, ty)) = all_types
             .iter()
+            // HashMap order differs between runs: consider the crates in name order.
+            .sorted_by(|(a, _), (b, _)| a.cmp(b))
             .flat_map(|(k, v)| {
                 v.iter()
                     .find(|&t| t == &referenced_import.type_name && k != &data.crate_name)
